@@ -15,7 +15,7 @@ import os
 
 from hexital import Hexital
 
-from .. import planlib, steps, world
+from .. import planlib, shrink, steps, world
 from ..catalogue import build, mk_candles, sample_members, sample_spec, spec_label
 from ..core import Discard, LibError, Violation, run_property
 from ..util import sub_rng, tf_seconds
@@ -234,8 +234,12 @@ def execute(trace, ctx=None):
         run.observe([(n, l, c) for n, l, c, _p, _s in measured])
         comparable = 0
         has_tf = any(m["common"].get("timeframe") for m in cfg["members"])
+        # while a trace is being minimised the memory oracle asks for twice the margin, so that the minimal
+        # trace still violates with room to spare when replayed (allocation counts vary by some dozens of
+        # bytes with the interpreter's free lists; the verdict on a replay file must not)
+        wide = 2 if shrink.SHRINKING else 1
         for k, (n, lines, calls, per, state) in enumerate(measured[1:], 1):
-            if not has_tf and state == base_state and mems[k] > mems[0] + MEM_PER_CANDLE * (n - base_n) + MEM_SLACK:
+            if not has_tf and state == base_state and mems[k] > mems[0] + wide * (MEM_PER_CANDLE * (n - base_n) + MEM_SLACK):
                 # base-timeframe managers extend their list in place: nothing in one append may allocate
                 # in proportion to the history (the occasional list re-allocation is amortised and hits at
                 # most one of the eight measured appends, hence the minimum).  Timeframe managers rebuild
